@@ -351,8 +351,16 @@ func (c *Ctx) nniTypestate(fi *FuncInfo, apply bool) {
 	appliedKey := r.Name() + ".applied"
 	// (a) first statement: if <applied-ness> { return }
 	okFirst := false
-	if len(fi.Decl.Body.List) > 0 {
-		if is, ok := fi.Decl.Body.List[0].(*ast.IfStmt); ok && is.Else == nil && c.leaves(info, is.Body.List) {
+	first := 0
+	for first < len(fi.Decl.Body.List) {
+		// plain declarations in front of the guard (`var err error`) do nothing
+		if _, isDecl := fi.Decl.Body.List[first].(*ast.DeclStmt); !isDecl {
+			break
+		}
+		first++
+	}
+	if len(fi.Decl.Body.List) > first {
+		if is, ok := fi.Decl.Body.List[first].(*ast.IfStmt); ok && is.Else == nil && c.leaves(info, is.Body.List) {
 			code := c.toBexpr(info, is.Cond, nil)
 			spec := bAtom(appliedKey)
 			if !apply {
